@@ -40,6 +40,9 @@ FAMILIES = {
     "R": [("s1", "a", 1.0, "b", 1.0, "u1"), ("s1", "a", 1.0, "b", 1.0, "u1"), ("s1", "a", 1.0, "", 0.0, "u1"),
           ("s1", "a", 1.0, "", 0.0, "u1"), ("s2", "a", 1.0, "b", 1.0, "u2"), ("s1", "a", 1.0, "b", 1.0, "u2"),
           ("s2", "c", 1.0, "b", 1.0, "obs")],
+    # five samples, every pair of four drugs for each: more samples than treatment groups in the pairwise design
+    "P": [("s%d" % (i // 6), x, 1.0, y, 1.0, "u1") for i, (x, y) in
+          enumerate([(x, y) for _ in range(5) for x, y in (("a", "b"), ("a", "c"), ("a", "d"), ("b", "c"), ("b", "d"), ("c", "d"))])],
     # like A but with a vehicle-only (all-control) experiment and a zero-dose treatment among the unobserved rows
     "E": [("s1", "a", 1.0, "b", 1.0, "obs"), ("s1", "", 0.0, "", 0.0, "u1"), ("s1", "b", 1.0, "c", 1.0, "u1"),
           ("s2", "a", 1.0, "b", 1.0, "u2"), ("s2", "c", 0.0, "a", 1.0, "u2"), ("s1", "a", 1.0, "c", 1.0, "u3")],
